@@ -1982,7 +1982,11 @@ func (f *formatter) ScalarEncapsedStringBrackets(n *ast.ScalarEncapsedStringBrac
 }
 
 func (f *formatter) ScalarHeredoc(n *ast.ScalarHeredoc) {
-	n.OpenHeredocTkn = f.newToken(token.T_START_HEREDOC, []byte("<<<EOT\n"))
+	openTkn := []byte("<<<EOT\n")
+	if n.OpenHeredocTkn != nil && bytes.IndexByte(n.OpenHeredocTkn.Value, '\'') >= 0 {
+		openTkn = []byte("<<<'EOT'\n") // a nowdoc stays a nowdoc: its body is not interpolated
+	}
+	n.OpenHeredocTkn = f.newToken(token.T_START_HEREDOC, openTkn)
 	for _, p := range n.Parts {
 		p.Accept(f)
 	}
